@@ -116,6 +116,7 @@ PAIRS = {
     'SlicedPacketCursor::slice_ipv6': ['h_pairs::c07_offsets_from_ip_v6'],
     'SlicedPacketCursor::slice_ip': ['h_pairs::c07_offsets_from_ip_v4', 'h_pairs::c07_offsets_from_ip_v6'],
     '::read_transport': ['h_packet::c04_headers_vs_sliced_ip_v4_udp'],
+    'Ipv6Extensions::from_slice': ['h_pairs::p_ext_struct_walk'],
     # checksums: protocol-level harnesses with the RFC oracle (small payloads) + the 64 KiB boundary harnesses
     'UdpHeader::calc_checksum_post_ip': ['h_builder::c09_k_proto_udp_ipv4', 'h_builder::c09_k_proto_udp_ipv6'],
     'UdpHeader::calc_checksum_ipv4_internal': ['h_builder::c09_k_proto_udp_ipv4'],
@@ -379,3 +380,6 @@ harness('h_pairs::p_ipv4_boundary_strict', ['C03', 'C06', 'C07'], 'bounded (all 
 harness('h_pairs::c07_offsets_from_ip_v4', ['C07', 'C03'], 'bounded (all inputs 1..=48 B, b[0]==0x45, protocol UDP/TCP/ICMP/ICMPv6/AH)', 'SlicedPacket::from_ip: a transport length error sits at the IP payload start with the real available length and a real length source; IP faults equal the RFC 791 reference fault; transport slices start at the IP payload', tier='quick', bound='N=48, unwind 4', timeout=600)
 harness('h_pairs::c07_offsets_from_ip_v6', ['C07', 'C03'], 'bounded (all inputs 1..=64 B, b[0]==0x60, next header UDP/TCP/ICMPv6/fragment/destination options)', 'same for IPv6 with extension headers (offset = 40 + chain length)', tier='quick', bound='N=64, unwind 5', timeout=900)
 harness('h_pairs::c07_offsets_from_ethernet_v4', ['C07', 'C03'], 'bounded (Ethernet II + IPv4, all inputs 14..=54 B, UDP/TCP)', 'SlicedPacket::from_ethernet: offsets count from the start of the frame (+14)', tier='thorough', bound='N=54, unwind 4', timeout=1800)
+
+# ---- struct walk: bounded check of the assumed contract of Ipv6Extensions::from_slice (spec swalk) ------------------------------------
+harness('h_pairs::p_ext_struct_walk', ['C04', 'C07'], 'bounded (all chains <= 24 B, all first-header values, <= 3 headers, unwind 5)', 'Ipv6Extensions::from_slice == executable mirror of the struct walk spec swalk (verdict, consumed, next, fragmented, every error field); this is the check of the contract Verus assumes for that function', tier='thorough', bound='24 B', timeout=3600)
